@@ -85,6 +85,14 @@ func (pnf *PrevNextFinder) FindPagination(root *html.Node, pageURL *nurl.URL) da
 }
 
 func (pnf *PrevNextFinder) FindOutlink(root *html.Node, pageURL *nurl.URL, findNext bool) string {
+	// Pages are only looked for on the web site of the page URL, so there is
+	// nothing to find unless the page URL is the address of a web page. With a
+	// relative URL, a host-less URL or another scheme the "allowed prefix" below
+	// would match links that can't be fetched (e.g. /story/page/2).
+	if (pageURL.Scheme != "http" && pageURL.Scheme != "https") || pageURL.Host == "" {
+		return ""
+	}
+
 	// Clean up URL
 	tmp, err := nurl.Parse(pageURL.String())
 	if err != nil {
